@@ -599,3 +599,69 @@ def th_term_read(case, obs):
                                                 z('padded_size'), z('data_start_byte'))
     seeks = '[' + '; '.join('(%s, %s, %s, %s, %s)' % tuple(C.zc(v) for v in x) for x in obs.get('seeks', [])) + ']'
     return '(HC (HCase13 %s %s %s %s %s))' % (head, C.cbool(ok), selft, z('time_step_count'), seeks)
+
+
+def run_w_read(case):
+    """C13, wind: Memmap reader and record reader on the same reference-encoded file; the record reader's fields and the
+    seeks of getArray (date, time, k, duv, byte position) are captured"""
+    c = case['content']
+    ws = M.encode(c)
+    d = L.workdir()
+    obs = dict(nwords=len(ws))
+    try:
+        p = os.path.join(d, 'f.bin')
+        with open(p, 'wb') as f:
+            f.write(L.bytes_of_words(ws))
+        st, o = _guard(lambda: M.observe(M.open_memmap('wind', p, c), 'wind'))
+        obs['mm'] = dict(status=st, view=o if st == 'ok' else None, err=o if st == 'raises' else None)
+        cap = {}
+
+        def rd():
+            r = M.open_read('wind', p, c)
+            cap['self'] = {k: float(getattr(r, k)) for k in ('start_date', 'start_time', 'time_step', 'nlayers', 'data_start_byte',
+                                                             'padded_time_hdr_size', 'padded_size')}
+            seeks, pos = [], []
+            orig_new = r.rffile._newrecord
+
+            def newrec(x):
+                pos.append(int(x))
+                return orig_new(x)
+            r.rffile._newrecord = newrec
+            orig_seek = r.seek
+
+            def seek(date=None, time=None, k=1, uv=1):
+                n0 = len(pos)
+                res = orig_seek(date, time, k, uv)
+                if len(pos) > n0 and date is not None and float(time) == int(time) and float(date) == int(date):
+                    seeks.append([int(date), int(time), int(k), int(uv), pos[-1]])
+                return res
+            r.seek = seek
+            cap['seeks'] = seeks
+            return M.observe(r, 'wind')
+        st4, o4 = _guard(rd, 4.0)
+        obs['rd'] = dict(status=st4, view=o4 if st4 == 'ok' else None, err=o4 if st4 == 'raises' else None)
+        obs['self'] = cap.get('self')
+        obs['seeks'] = (cap.get('seeks') or [])[:80] if st4 == 'ok' else []
+    finally:
+        shutil.rmtree(d, ignore_errors=True)
+    signal.setitimer(signal.ITIMER_REAL, 60.0)
+    return obs
+
+
+def w_term_read(case, obs):
+    """Coq term `WC (WCase13 ...)` of Corr/C13.v"""
+    c = case['content']
+    mm, rd = obs['mm'], obs['rd']
+    mv = M.coq_wview(c, mm['view'] if mm['status'] == 'ok' else None)[0]
+    rv = M.coq_wview(c, rd['view'] if rd['status'] == 'ok' else None)[0]
+    s = obs.get('self')
+    ok = bool(s) and all(float(s[k]) == int(s[k]) for k in s) and rd['status'] == 'ok'
+    z = lambda k: C.zc(int(s[k])) if ok else '0'  # noqa: E731
+    selft = ('{| wr_start_date := %s; wr_start_time := %s; wr_time_step := %s; wr_nlayers := %s; wr_data_start_byte := %s; '
+             'wr_padded_time_hdr_size := %s; wr_padded_size := %s |}') % (z('start_date'), z('start_time'), z('time_step') if ok else '1',
+                                                                           z('nlayers') if ok else '1', z('data_start_byte'),
+                                                                           z('padded_time_hdr_size'), z('padded_size'))
+    seeks = '[' + '; '.join('(%s, %s, %s, %s, %s)' % tuple(C.zc(v) for v in x) for x in obs.get('seeks', [])) + ']'
+    return '(WC (WCase13 %s %s %d %s %s %s %s %s %s %s))' % (
+        M.coq_wind(c), C.zlist(M.encode(c)), {'ok': 0, 'raises': 1, 'timeout': 2}[mm['status']], mv,
+        C.cbool(rd['status'] == 'ok'), rv, C.cbool(rd['status'] == 'timeout'), C.cbool(ok), selft, seeks)
